@@ -273,6 +273,7 @@ def classify_detail(kind, detail):
 
 def replay_file(ctx, props):
     """vcheck --replay: re-execute the recorded behaviour of a violation on the current tree."""
+    ctx.replay_handled = True
     d = json.load(open(ctx.replay))
     rp = d["replay"]
     c = dict(rp["constants"])
